@@ -217,10 +217,14 @@ impl Circle2 {
     ///
     /// ```
     pub fn from_3_points(p0: Point2, p1: Point2, p2: Point2) -> Result<Circle2> {
-        let temp = p1.x.powi(2) + p1.y.powi(2);
-        let bc = (p0.x.powi(2) + p0.y.powi(2) - temp) / 2.0;
-        let cd = (temp - p2.x.powi(2) - p2.y.powi(2)) / 2.0;
-        let det = (p0.x - p1.x) * (p1.y - p2.y) - (p1.x - p2.x) * (p0.y - p1.y);
+        // The construction works on the two sides leaving `p0` rather than on the squared
+        // coordinates themselves: the differences of squared coordinates cancel catastrophically
+        // for a triangle that is small compared with its distance from the origin (three
+        // neighbouring vertices of a finely sampled section), and the centre was then wrong by
+        // more than the size of the triangle.
+        let b = p1 - p0;
+        let c = p2 - p0;
+        let det = b.x * c.y - b.y * c.x;
 
         // The determinant is twice the area of the triangle, so collinearity is judged relative
         // to the lengths of the two sides it was formed from (it is the sine of the angle between
@@ -230,11 +234,13 @@ impl Circle2 {
         if det.abs() <= 1.0e-6 * scale {
             Err("Points are collinear".into())
         } else {
-            let cx = (bc * (p1.y - p2.y) - cd * (p0.y - p1.y)) / det;
-            let cy = ((p0.x - p1.x) * cd - (p1.x - p2.x) * bc) / det;
+            let b2 = b.norm_squared();
+            let c2 = c.norm_squared();
+            let ux = (c.y * b2 - b.y * c2) / (2.0 * det);
+            let uy = (b.x * c2 - c.x * b2) / (2.0 * det);
 
-            let radius = ((cx - p0.x).powi(2) + (cy - p0.y).powi(2)).sqrt();
-            Ok(Self::new(cx, cy, radius))
+            let radius = (ux * ux + uy * uy).sqrt();
+            Ok(Self::new(p0.x + ux, p0.y + uy, radius))
         }
     }
 
